@@ -710,7 +710,11 @@ def pattern_flags(pattern: Any) -> Set[str]:
                             flags.add("astral-range-three-high-surrogates")
                         else:
                             flags.add("astral-range-many-high-surrogates")
-                    if lo <= SUR_HI and hi >= SUR_LO:
+                    if lo <= SUR_HI and hi >= SUR_LO and not (lo < SUR_LO and hi > 0xFFFF):
+                        # NOTE: a range from below the surrogate block up into a
+                        # supplementary plane covers the surrogate code points only
+                        # incidentally; a faithful rewriting leaves them out of the
+                        # basic-plane part, so this is not the documented limitation.
                         flags.add("surrogate-in-pattern")
                 if quantified and astral:
                     flags.add("quantified-astral-set")
@@ -1309,6 +1313,10 @@ ASTRAL_EDGE_CPS = [0x10000, 0x10001, 0x103FE, 0x103FF, 0x10400, 0x10401, 0x107FF
                    0x10FFFE, 0x10FFFF]
 
 
+#: Starts of ranges that span from the basic plane into a supplementary plane.
+BMP_EDGE_CPS = [0x20, 0x61, 0xD7FF, 0xE000, 0xFFFD]
+
+
 def astral_range_patterns() -> List[str]:
     """Every lo<=hi pair of the edge code points, in three pattern shapes."""
     out = []
@@ -1319,4 +1327,17 @@ def astral_range_patterns() -> List[str]:
             out.append("^[%s]$" % rng_text)
             out.append("^[a-z%s_]{2,3}$" % rng_text)
             out.append("^x([%s]|-)*y$" % rng_text)
+    return out
+
+
+def bmp_to_astral_range_patterns() -> List[str]:
+    """Ranges that start in the basic plane and end in a supplementary plane."""
+    out = []
+    for lo in BMP_EDGE_CPS:
+        for hi in (0x10000, 0x10001, 0x103FF, 0x10400, 0x1F600, 0x10FFFF):
+            lo_text = chr(lo) if lo == 0x61 else ("\\x%02x" % lo if lo < 0x100 else "\\u%04x" % lo)
+            rng_text = "%s-\\U%08x" % (lo_text, hi)
+            out.append("^[%s]$" % rng_text)
+            out.append("^[%s]+$" % rng_text)
+            out.append("^[%s]{2}$" % rng_text)
     return out
